@@ -53,7 +53,8 @@ def damage_track(rng, tr, enc, order, style=None):
     ops = []
     log = []
     recs = list(tr.pos)
-    style = style or rng.choice(['random', 'random', 'lost-record', 'double-fault', 'slips', 'zeros', 'truncate', 'none'])
+    style = style or rng.choice(['random', 'random', 'lost-record', 'double-fault', 'slips', 'zeros', 'truncate', 'none',
+                                 'recode', 'recode', 'recode'])
 
     def span(r, region):
         a, b = region_span(tr, r, region, enc)
@@ -82,8 +83,42 @@ def damage_track(rng, tr, enc, order, style=None):
             ops.append(('del', at))
         log.append((kind, r, region))
 
+    def recode(r, region):
+        # wrong bytes, legal clock pattern, stale CRC: only the CRC check can reject this field
+        a0, b0 = region_span(tr, r, region, enc)
+        n = (b0 - a0) // 16
+        cur = flux._bits_to_bytes(cells, a0 + 1, n)
+        new = bytearray(cur)
+        for _ in range(rng.choice([1, 1, 2, 3, 8])):
+            new[rng.randrange(n)] ^= rng.choice([1, 2, 4, 8, 16, 32, 64, 128, 0xFF, rng.randrange(1, 256)])
+        if bytes(new) == cur:
+            new[0] ^= 1
+        if enc == 'fm':
+            enc_cells = b''.join(flux.FM_TAB[x] for x in new)
+        else:
+            prev = cells[a0 - 1] if a0 > 0 else 0
+            out = bytearray()
+            for x in new:
+                out += flux.MFM_TAB[prev][x]
+                prev = out[-1]
+            enc_cells = bytes(out)
+            # the clock of the first cell after the field depends on the last data bit
+            if b0 + 1 < len(cells):
+                cells[b0] = 0 if (prev or cells[b0 + 1]) else 1
+        cells[a0:b0] = enc_cells
+        log.append(('recode', r, region))
+
     if style == 'none':
         pass
+    elif style in ('recode', 'recode-all'):
+        # every sector gets a recoded data (or ID) field: many chances for a weak CRC check to accept one
+        for r in recs:
+            if style == 'recode-all':
+                recode(r, 'data')
+                if rng.random() < 0.5:
+                    recode(r, 'idfield')
+            else:
+                recode(r, 'data' if rng.random() < 0.8 else 'idfield')
     elif style == 'lost-record':
         # the data mark of one or more sectors disappears
         for r in rng.sample(recs, rng.randint(1, 3)):
@@ -167,9 +202,9 @@ def run_harness(cases):
     return out, p.stderr, p.returncode
 
 
-def decoder_case(spec):
+def decoder_case(spec, force_style=None):
     seed, idx, tier = spec
-    rng = case_rng(seed, PROP, ('dec', idx))
+    rng = case_rng(seed, PROP, ('dec', idx, force_style))
     res = CaseResult()
     batch = []
     meta = []
@@ -184,7 +219,7 @@ def decoder_case(spec):
         fn = flux.fm_track if enc == 'fm' else flux.mfm_track
         tr = fn(cyl, head, secs, order=order, gap1=params.gap1, gap3=params.gap3, sync=params.sync, gap2=params.gap2,
                 index_mark=params.index_mark, gap4_min=params.gap4)
-        cells, ops, log = damage_track(rng, tr, enc, order)
+        cells, ops, log = damage_track(rng, tr, enc, order, force_style)
         batch.append(('F' if enc == 'fm' else 'M', flux.pack_lsb_first(cells)))
         meta.append((enc, spt, cyl, head, secs, tr, cells, ops, log, order))
     yields, err, rc = run_harness(batch)
@@ -455,6 +490,8 @@ def image_case(spec):
 
 
 def dispatch(spec):
+    if spec[1] == 'rec':
+        return decoder_case((spec[0],) + spec[2:], 'recode-all')
     return {'dec': decoder_case, 'arb': arbitrary_case, 'img': image_case}[spec[1]]((spec[0],) + spec[2:])
 
 
@@ -464,10 +501,11 @@ def main(tier, seed, scale=1.0):
                                                                    'dfs/crc16.cc', 'dfs/hexdump.cc'])
     q = tier == 'quick'
     specs = [(seed, 'dec', i, tier) for i in range(int((160 if q else 8000) * scale))] + \
+            [(seed, 'rec', i, tier) for i in range(int((120 if q else 4000) * scale))] + \
             [(seed, 'arb', i, tier) for i in range(int((40 if q else 1500) * scale))] + \
             [(seed, 'img', i, tier) for i in range(int((150 if q else 3000) * scale))]
     rule = ('dec cases: 25 valid FM/MFM tracks each (10/16/18 spt, random legal parameters) with damage styles random / '
-            'lost-record / double-fault / slips / zeros / truncate applied to chosen regions (sync, ID mark, ID field, gap2, '
+            'lost-record / double-fault / slips / zeros / truncate / recode (field re-encoded with legal clocks, wrong bytes and the stale CRC; rec cases recode every sector) applied to chosen regions (sync, ID mark, ID field, gap2, '
             'data mark, data, CRC); every sector the real decoders yield must be the recorded data for that address or '
             'CRC-valid at its home position in the damaged stream; arb cases: 30 arbitrary streams each (random bits, '
             'constant, spliced fragments at arbitrary bit offsets, odd size codes, truncated) judged by an independent '
